@@ -127,7 +127,7 @@ func (b *Bin) Start(w *World, cached bool) StartResult {
 	b.addr = string(m[1])
 	leaf, err := Handshake(b.addr)
 	if err != nil {
-		res.Outcome, res.Err = "failed", fmt.Errorf("handshake with %s: %w", b.addr, err)
+		res.Outcome, res.Err = "unusable", fmt.Errorf("handshake with %s: %w", b.addr, err)
 		return res
 	}
 	res.FP = SPKIHash(leaf)
